@@ -40,7 +40,7 @@ func (s *Server) HandleBefore(
 		q := pctx.Req.Question[0]
 		qt := q.Qtype
 		host := aghnet.NormalizeDomain(q.Name)
-		if s.access.isBlockedHost(host, qt) {
+		if s.isBlockedHost(host, qt) {
 			log.Debug("access: request %s %s is in access blocklist", dns.Type(qt), host)
 
 			return s.preBlockedResponse(pctx)
@@ -54,6 +54,15 @@ func (s *Server) HandleBefore(
 	}
 
 	return nil
+}
+
+// isBlockedHost returns true if the host is blocked by the current access
+// settings.  It is safe for concurrent use.
+func (s *Server) isBlockedHost(host string, qt uint16) (ok bool) {
+	s.serverLock.RLock()
+	defer s.serverLock.RUnlock()
+
+	return s.access.isBlockedHost(host, qt)
 }
 
 // clientIDFromDNSContext extracts the client's ID from the server name of the
